@@ -42,6 +42,7 @@
 // "available area" is computed here from scratch: rows minus the column ranges touched by fixed obstruction
 // cells, each free segment shortened by 2*margin*height and truncated to whole columns.
 #include <algorithm>
+#include <tuple>
 #include <climits>
 #include <cmath>
 #include <fstream>
@@ -547,6 +548,44 @@ struct Runner {
     }
     out.count(any ? "cellexp_some_cell_congested" : "cellexp_no_cell_congested");
     if (any) out.nontrivial(vh::hashStr(callText));
+    {  // measured: maps that list one rectangle several times, and where its largest congested value stands
+      bool rep = false, repCong = false, notLast = false, notFirst = false, decides = false;
+      for (size_t a = 0; a < m.size(); ++a) {
+        float mx = m[a].second;
+        size_t first = a, last = a, argFirst = a, argLast = a, cnt = 0;
+        bool earlier = false;
+        for (size_t b = 0; b < m.size(); ++b) {
+          const Rectangle &p = m[a].first, &q = m[b].first;
+          if (!(p.minX == q.minX && p.maxX == q.maxX && p.minY == q.minY && p.maxY == q.maxY)) continue;
+          if (b < a) earlier = true;
+          ++cnt;
+          last = b;
+          if (m[b].second > mx) { mx = m[b].second; argFirst = argLast = b; } else if (m[b].second == mx) { if (b < argFirst) argFirst = b; argLast = b; }
+        }
+        if (earlier || cnt < 2) continue;
+        rep = true;
+        if (!(mx > 1.0f)) continue;
+        repCong = true;
+        bool nl = argLast != last, nf = argFirst != first;
+        notLast = notLast || nl;
+        notFirst = notFirst || nf;
+        // does some movable cell take its factor from this rectangle's largest value while another copy has a smaller one?
+        for (int i = 0; i < c.nbCells() && !decides; ++i) {
+          if (c.cellIsFixed()[i]) continue;
+          Rectangle pl = c.placement(i);
+          const Rectangle &rr = m[a].first;
+          if (!(rr.minX < pl.maxX && pl.minX < rr.maxX && rr.minY < pl.maxY && pl.minY < rr.maxY)) continue;
+          float best = 0;
+          for (auto &rc : m) if (rc.second > 1.0f && rc.first.minX < pl.maxX && pl.minX < rc.first.maxX && rc.first.minY < pl.maxY && pl.minY < rc.first.maxY) best = std::max(best, rc.second);
+          if (best == mx && (nl || nf)) decides = true;
+        }
+      }
+      if (rep) out.count("cellexp_map_repeats_a_rectangle");
+      if (repCong) out.count("cellexp_repeated_rectangle_is_congested");
+      if (notLast) out.count("cellexp_repeated_rectangle_largest_value_not_listed_last");
+      if (notFirst) out.count("cellexp_repeated_rectangle_largest_value_not_listed_first");
+      if (decides) out.count("cellexp_repeated_rectangle_decides_a_movable_cells_factor");
+    }
   }
 
   // ------------------------------------------------------------------ object histories
@@ -769,6 +808,58 @@ static std::vector<Region> genRegions(vh::Rng &g, const Circuit &c, bool exact) 
     if (g.chance(1, 8)) cg = 1.0f;
     m.emplace_back(r, cg);
   }
+  // Family: ordering / identity of the map entries.  A per-layer / per-direction congestion report lists the same rectangle
+  // several times with different values; any container keyed by the rectangle, any "first / last entry wins", any de-duplication
+  // and any dependence on the listing order breaks "the largest factor among the congested regions the cell intersects".
+  // One map in three repeats one of its rectangles 1-3 more times (exactly the same rectangle, different congestion values,
+  // the largest listed first / last / in the middle / anywhere; copies adjacent or scattered between the other regions).
+  if (!m.empty() && g.chance(1, 3)) {
+    int k = g.range(0, (int)m.size() - 1);
+    if (c.nbCells() > 0 && g.chance(1, 2)) {  // make sure it is often a rectangle that meets a cell
+      Rectangle p = c.placement(g.range(0, c.nbCells() - 1));
+      m[k].first = Rectangle(p.minX - g.range(0, 2), p.maxX + g.range(0, 2), p.minY - g.range(0, 2), p.maxY + g.range(0, 2));
+    }
+    Rectangle r = m[k].first;
+    std::vector<float> vals = {m[k].second};
+    int copies = g.range(1, 3);
+    for (int i = 0; i < copies; ++i) vals.push_back(exact ? (float)(g.range(6, 24) / 8.0) : (float)(g.range(800, 3000) / 1000.0));
+    std::sort(vals.begin(), vals.end());
+    int mode = g.range(0, 3);
+    if (mode == 0) std::reverse(vals.begin(), vals.end());                               // largest first
+    else if (mode == 2) std::swap(vals.back(), vals[(vals.size() - 1) / 2]);               // largest in the middle (first when only two)
+    else if (mode == 3) for (size_t i = vals.size(); i > 1; --i) std::swap(vals[i - 1], vals[g.range(0, (int)i - 1)]);
+    m.erase(m.begin() + k);
+    std::vector<Region> res;
+    if (g.chance(1, 2)) {  // adjacent
+      size_t pos = (size_t)g.range(0, (int)m.size());
+      for (size_t i = 0; i <= m.size(); ++i) {
+        if (i == pos) for (float v : vals) res.emplace_back(r, v);
+        if (i < m.size()) res.push_back(m[i]);
+      }
+    } else {               // scattered, relative order kept
+      size_t ia = 0, ib = 0;
+      while (ia < m.size() || ib < vals.size()) {
+        bool takeV = ib < vals.size() && (ia >= m.size() || g.chance(1, 2));
+        if (takeV) res.emplace_back(r, vals[ib++]); else res.push_back(m[ia++]);
+      }
+    }
+    m.swap(res);
+  }
+  return m;
+}
+
+// the same map listed in another order (reversed, rotated, sorted by position ascending / descending, shuffled)
+static std::vector<Region> relisted(vh::Rng &g, std::vector<Region> m) {
+  auto byPos = [](const Region &a, const Region &b) {
+    return std::make_tuple(a.first.minX, a.first.minY, a.first.maxX, a.first.maxY) < std::make_tuple(b.first.minX, b.first.minY, b.first.maxX, b.first.maxY);
+  };
+  switch (g.range(0, 4)) {
+    case 0: std::reverse(m.begin(), m.end()); break;
+    case 1: std::rotate(m.begin(), m.begin() + 1, m.end()); break;
+    case 2: std::stable_sort(m.begin(), m.end(), byPos); break;
+    case 3: std::stable_sort(m.begin(), m.end(), byPos); std::reverse(m.begin(), m.end()); break;
+    default: for (size_t i = m.size(); i > 1; --i) std::swap(m[i - 1], m[g.range(0, (int)i - 1)]); break;
+  }
   return m;
 }
 
@@ -828,7 +919,10 @@ int main(int argc, char **argv) {
              "caps, factors, penalties, congestion values; widths up to 2^28) are compared exactly (all widths, returned ratio, every "
              "expansion factor) with the binary64/binary32-exact model; F_*_inexact = at least one floating-point operation of the call rounds. "
              "Object-history stream: every observation of a history (mutators and observed calls interleaved on one Circuit object) "
-             "is one more instance, compared in addition with the same call on a freshly rebuilt circuit of the same observable state";
+             "is one more instance, compared in addition with the same call on a freshly rebuilt circuit of the same observable state. "
+             "Congestion maps: one in three lists one of its rectangles 2-4 times with different values (largest first / last / middle, adjacent or "
+             "scattered; counters cellexp_repeated_rectangle_*), and one call in three is repeated with the same map listed in another order "
+             "(reversed, rotated, sorted by position, shuffled; cellexp_same_map_listed_in_another_order)";
   Runner r(out);
   // --replay of a recorded object history: only that history
   if (!a.replay.empty()) {
@@ -923,7 +1017,10 @@ int main(int argc, char **argv) {
     }
     if (i % 2 == 0) {
       static const std::vector<float> fps = {0.0f, 0.0f, 0.25f, 0.5f, 1.0f, -0.5f}, pfs = {1.0f, 1.0f, 1.5f, 2.0f, 1.25f, 0.5f};
-      r.cellExpansion(id, in.c, genRegions(g, in.c, true), g.pick(fps), g.pick(pfs));
+      std::vector<Region> m = genRegions(g, in.c, true);
+      float fp = g.pick(fps), pf = g.pick(pfs);
+      r.cellExpansion(id, in.c, m, fp, pf);
+      if (m.size() >= 2 && g.chance(1, 3)) { out.count("cellexp_same_map_listed_in_another_order"); r.cellExpansion(id, in.c, relisted(g, m), fp, pf); }
     }
   }
   // 2. arbitrary instances (oracle; correspondence whenever the replica happens to be exact)
@@ -967,7 +1064,9 @@ int main(int argc, char **argv) {
       r.byFactor(id, c, f, maxD, margin);
     } else {
       float fp = g.chance(1, 2) ? 0.0f : (float)(g.range(-2, 20) / 10.0), pf = g.chance(1, 2) ? 1.0f : (float)(g.range(8, 30) / 10.0);
-      r.cellExpansion(id, c, genRegions(g, c, false), fp, pf);
+      std::vector<Region> m = genRegions(g, c, false);
+      r.cellExpansion(id, c, m, fp, pf);
+      if (m.size() >= 2 && g.chance(1, 3)) { out.count("cellexp_same_map_listed_in_another_order"); r.cellExpansion(id, c, relisted(g, m), fp, pf); }
     }
   }
   // 4. rounding stream: full-mantissa arguments, compared exactly with the binary64/binary32-exact model (and oracle)
@@ -1008,6 +1107,7 @@ int main(int argc, char **argv) {
       std::vector<Region> m = genRegions(g, c, false);
       for (auto &rc : m) if (!g.chance(1, 6)) rc.second = g.chance(1, 8) ? 1.0f + rndUnitF(g) * 0x1p-20f : rndUnitF(g) * 4.0f;
       r.cellExpansion(id, c, m, fp, pf);
+      if (m.size() >= 2 && g.chance(1, 3)) { out.count("cellexp_same_map_listed_in_another_order"); r.cellExpansion(id, c, relisted(g, m), fp, pf); }
     }
   }
   // 3. object histories: mutators and observations interleaved on one Circuit object
